@@ -15,6 +15,8 @@ def rdHdr : Rd Hdr := do
   let off ← (List.range np).mapM fun _ => rdNatVec
   return { np, fc, off }
 
+def tapName (tap : Nat) : String := if tap == 2 then "tap2" else if tap != 0 then "tap" else "std"
+
 def rdPer (np : Nat) : Rd (List (List Int)) := (List.range np).mapM fun _ => rdVec
 
 def hdrFeats (h : Hdr) : List String :=
@@ -58,9 +60,9 @@ def checkPkg : Rd Verdict := do
 def checkFwd : Rd Verdict := do
   let tap ← rdNat; let derived ← rdNat; let isInt ← rdNat; let bs ← rdNat; let h ← rdHdr
   let xs ← rdPer h.np; let rs ← rdPer h.np
-  let feats := ["fwd", if tap != 0 then "tap" else "std", if derived != 0 then "derived" else "direct",
+  let feats := ["fwd", tapName tap, if derived != 0 then "derived" else "direct",
                 if isInt != 0 then "int" else "double", s!"bs{bs}"] ++ hdrFeats h
-  let base := s!"C03/fwd/{if tap != 0 then "tap" else "std"}" ++ (if derived != 0 then "/derived" else "") ++
+  let base := s!"C03/fwd/{tapName tap}" ++ (if derived != 0 then "/derived" else "") ++
               s!"/{if isInt != 0 then "int" else "double"}" ++ (if bs > 1 then "/block" else "")
   let x := xs.map (blocks bs)
   for r in List.range h.np do
@@ -82,8 +84,8 @@ def checkRev : Rd Verdict := do
   let tap ← rdNat; let derived ← rdNat; let fn ← rdNat; let bs ← rdNat; let h ← rdHdr
   let ys ← rdPer h.np; let inits ← rdPer h.np; let rs ← rdPer h.np
   let fnName := match fn with | 0 => "sum" | 1 => "max" | _ => "select"
-  let feats := ["rev", if tap != 0 then "tap" else "std", if derived != 0 then "derived" else "direct", fnName, s!"bs{bs}"] ++ hdrFeats h
-  let base := s!"C03/rev/{if tap != 0 then "tap" else "std"}" ++ (if derived != 0 then "/derived" else "") ++ s!"/{fnName}" ++
+  let feats := ["rev", tapName tap, if derived != 0 then "derived" else "direct", fnName, s!"bs{bs}"] ++ hdrFeats h
+  let base := s!"C03/rev/{tapName tap}" ++ (if derived != 0 then "/derived" else "") ++ s!"/{fnName}" ++
               (if bs > 1 then "/block" else "")
   let y := ys.map (blocks bs)
   for p in List.range h.np do
@@ -145,8 +147,8 @@ def checkMat : Rd Verdict := do
   let tap ← rdNat; let hv ← rdNat; let h ← rdHdr
   let trip ← rdVec
   let fs ← rdPer h.np
-  let feats := ["mat", if tap != 0 then "tap" else "std", if hv != 0 then "vals" else "pattern"] ++ hdrFeats h
-  let base := s!"C03/mat/{if tap != 0 then "tap" else "std"}/{if hv != 0 then "vals" else "pattern"}"
+  let feats := ["mat", tapName tap, if hv != 0 then "vals" else "pattern"] ++ hdrFeats h
+  let base := s!"C03/mat/{tapName tap}/{if hv != 0 then "vals" else "pattern"}"
   let rec ents : List Int → List (Int × Int × Int)
     | i :: j :: v :: t => (i, j, v) :: ents t
     | _ => []
@@ -169,8 +171,8 @@ def mergeRow (r : List (Int × Int)) : List (Int × Int) :=
 def checkMatT : Rd Verdict := do
   let tap ← rdNat; let h ← rdHdr
   let ss ← rdPer h.np; let fs ← rdPer h.np
-  let feats := ["matT", if tap != 0 then "tap" else "std"] ++ hdrFeats h
-  let base := s!"C03/matT/{if tap != 0 then "tap" else "std"}"
+  let feats := ["matT", tapName tap] ++ hdrFeats h
+  let base := s!"C03/matT/{tapName tap}"
   let sent := ss.map rowsOf          -- per rank: one row per off-process column
   for p in List.range h.np do
     let ln := h.fc.getD (p+1) 0 - h.fc.getD p 0
